@@ -59,7 +59,7 @@ def run_config(torch, G, SpyLeaf, cfg):
         budget['draws'] += 1
         x = spied()
         first = x if isinstance(x, torch.Tensor) else (x[0] if len(x) else None)
-        if budget['draws'] > 40 * (bsz + 2) or (first is not None and len(first) > 4096):
+        if budget['draws'] > 64 * (bsz + 2) or (first is not None and len(first) > 4096):     # per get_examples() call of the batch generator
             raise RuntimeError('runaway: the batch generator keeps drawing / its source grows without bound')
         return x
     under.get_examples = guarded
@@ -67,6 +67,7 @@ def run_config(torch, G, SpyLeaf, cfg):
     try:
         bg = G.BatchGenerator(under, bsz)
         for _ in range(calls):
+            budget['draws'] = 0
             form, cols = gd.to_cols(bg.get_examples(), torch)
             out['batches'].append(cols)
             out['forms'].append(form)
